@@ -42,6 +42,9 @@ BUNDLED_IDS = list(RENDERERS)          # the ten bundled document renderers
 RENDERERS['UserHtml'] = ('sim.c11_world', 'UserHtmlRenderer', 'html')
 RENDERERS['UserMarkdown'] = ('sim.c11_world', 'UserMarkdownRenderer', 'markdown')
 RENDERER_IDS = list(RENDERERS)         # + user renderers: subclasses that hand their own tokens to super().__init__
+# Scheme (contrib) is a renderer for a different language: it REBINDS both token lists and renders `Program` tokens, not
+# Markdown documents. It takes part as a context of its own (programs as documents) but is not in RENDERER_IDS.
+RENDERERS['Scheme'] = ('mistletoe.contrib.scheme', 'Scheme', 'scheme')
 
 _HTML_OPTS = [
     {},
@@ -66,6 +69,7 @@ OPTIONS = {
     'XWiki20': [{}],
     'UserHtml': [{}, {'process_html_tokens': False}],
     'UserMarkdown': [{}, {'max_line_length': 20}],
+    'Scheme': [{}],
 }
 
 
@@ -360,6 +364,8 @@ def _render_func(tok_id, rid, r):
         return block_md
     if fam == 'ast':
         return lambda token: ''
+    if fam == 'scheme':
+        return lambda token: None
     if is_span(tok_id):
         def span_any(token):
             inner = r.render_inner(token) if token.children is not None else html.escape(token.content)
@@ -543,6 +549,9 @@ def _exec_ctx(bi, block, emit):
 
                     def do():
                         try:
+                            if rid == 'Scheme':
+                                phase[0] = 'render'
+                                return repr(r.render(sys.modules['mistletoe.contrib.scheme'].Program([step['doc']])))
                             d = mistletoe.Document(step['doc'])
                             if step.get('mutate'):
                                 _tweak_tree(d)
